@@ -20,12 +20,19 @@ func VfC17_ParseMetadata() {
 	}
 	vfAssume(vfAnd(d[0] != d[1], vfAnd(d[0] != d[2], d[1] != d[2])))
 	a, b, c := "!"+d[0:1], "!"+d[1:2], "!"+d[2:3]
+	// two more operands of the repeated named metadata definition: references
+	// the solver chooses among the three definitions (so that operands repeat
+	// within a definition and across the definitions)
+	xy := vfString("xy", 2)
+	for i := 0; i < 2; i++ {
+		vfAssume(vfOr(xy[i] == d[0], vfOr(xy[i] == d[1], xy[i] == d[2])))
+	}
 	src := "@g = global i32 0, !dbg " + b + "\n" +
-		"!named = !{" + a + "}\n" +
+		"!named = !{" + a + ", !" + xy[0:1] + "}\n" +
 		a + " = !{" + b + ", !{" + c + "}}\n" + // forward reference and an inline tuple
 		b + " = distinct !{" + a + ", " + c + "}\n" + // cycle a <-> b
 		c + " = !{}\n" +
-		"!named = !{" + c + "}\n"
+		"!named = !{" + c + ", !" + xy[1:2] + "}\n"
 	m, err := ParseString("t.ll", src)
 	vfReach("C17.parse")
 	vfObserveStr("src", src)
@@ -72,7 +79,16 @@ func VfC17_ParseMetadata() {
 	nd := m.NamedMetadataDefs["named"]
 	vfAssert("C17.parse.named-merged", vfAnd(nd != nil, len(m.NamedMetadataDefs) == 1))
 	if nd != nil {
-		vfAssert("C17.parse.named-textual-order", vfAnd(len(nd.Nodes) == 2, vfAnd(nd.Nodes[0] == metadata.Node(na), nd.Nodes[1] == metadata.Node(nc))))
+		vfAssert("C17.parse.named-keeps-every-operand", len(nd.Nodes) == 4)
+		if len(nd.Nodes) == 4 {
+			idOf := func(n metadata.Node) int64 {
+				if t, ok := n.(*metadata.Tuple); ok {
+					return t.ID()
+				}
+				return -7
+			}
+			vfAssert("C17.parse.named-textual-order", vfAnd(vfAnd(nd.Nodes[0] == metadata.Node(na), nd.Nodes[2] == metadata.Node(nc)), vfAnd(idOf(nd.Nodes[1]) == int64(xy[0]-'0'), idOf(nd.Nodes[3]) == int64(xy[1]-'0'))))
+		}
 	}
 	att := m.Globals[0].Metadata
 	vfAssert("C17.parse.attachment-identity", vfAnd(len(att) == 1, att[0].Node == metadata.MDNode(nb)))
